@@ -4017,13 +4017,13 @@ Ops!(
     b"yoyo"       , [0x09, 0x82        ], X, XOP_OP, AMD | SSE5;
 ]
 "vgatherdpd" = [
-    b"y*loy*"     , [0x02, 0x92        ], X, VEX_OP | AUTO_VEXL | ENC_MR | PREF_66, AVX2;
+    b"y*loy*"     , [0x02, 0x92        ], X, VEX_OP | AUTO_VEXL | WITH_REXW | ENC_MR | PREF_66, AVX2;
 ]
 "vgatherdps" = [
     b"y*k*y*"     , [0x02, 0x92        ], X, VEX_OP | AUTO_VEXL | ENC_MR | PREF_66, AVX2;
 ]
 "vgatherqpd" = [
-    b"y*l*y*"     , [0x02, 0x93        ], X, VEX_OP | AUTO_VEXL | ENC_MR | PREF_66, AVX2;
+    b"y*l*y*"     , [0x02, 0x93        ], X, VEX_OP | AUTO_VEXL | WITH_REXW | ENC_MR | PREF_66, AVX2;
 ]
 "vgatherqps" = [
     b"yok*yo"     , [0x02, 0x93        ], X, VEX_OP | AUTO_VEXL | ENC_MR | PREF_66, AVX2;
@@ -4495,13 +4495,13 @@ Ops!(
     b"y*k*y*"     , [0x02, 0x90        ], X, VEX_OP | AUTO_VEXL | ENC_MR | PREF_66, AVX2;
 ]
 "vpgatherdq" = [
-    b"y*loy*"     , [0x02, 0x90        ], X, VEX_OP | AUTO_VEXL | ENC_MR | PREF_66, AVX2;
+    b"y*loy*"     , [0x02, 0x90        ], X, VEX_OP | AUTO_VEXL | WITH_REXW | ENC_MR | PREF_66, AVX2;
 ]
 "vpgatherqd" = [
     b"yok*yo"     , [0x02, 0x91        ], X, VEX_OP | AUTO_VEXL | ENC_MR | PREF_66, AVX2;
 ]
 "vpgatherqq" = [
-    b"y*l*y*"     , [0x02, 0x91        ], X, VEX_OP | AUTO_VEXL | ENC_MR | PREF_66, AVX2;
+    b"y*l*y*"     , [0x02, 0x91        ], X, VEX_OP | AUTO_VEXL | WITH_REXW | ENC_MR | PREF_66, AVX2;
 ]
 "vphaddbd" = [
     b"yowo"       , [0x09, 0xC2        ], X, XOP_OP, SSE5 | AMD;
